@@ -715,15 +715,9 @@ func inlineBuildTail(w *World) (string, string, string) {
 // is `return <zero>, E`, and the call site propagates the error unchanged.
 func inlineBuildHead(w *World) (string, string, string) {
 	ro := resolveRoles(w)
-	h := ro.doBuild
-	if h == nil || ro.allocProvider == nil || h == ro.allocProvider {
+	h := ro.cycleHelper
+	if h == nil || ro.doBuild == nil || h == ro.doBuild {
 		return "", "", ""
-	}
-	// the tail shape (doBuild calls the allocating helper) is inlineBuildTail's business
-	for _, c := range callsIn(h.Decl.Body, true) {
-		if callee(h.Pkg.TypesInfo, c) == ro.allocProvider.Obj {
-			return "", "", ""
-		}
 	}
 	name := h.Name()
 	callers := w.Callers()[h]
@@ -960,4 +954,481 @@ func inlineBuildHead(w *World) (string, string, string) {
 		}
 	}
 	return dir, name, ""
+}
+
+// inlineLockClosures: `withLock(&p.mu, func() { BODY })` and `s.withTable(func() {
+// BODY })`, where the helper is exactly lock / (deferred) unlock / call of its
+// func() parameter, are rewritten in a scratch copy to
+//
+//	{ p.mu.Lock(); BODY; p.mu.Unlock() }
+//
+// so that the rules about critical sections read them as they read the plain
+// form. Only statement calls with a literal that has no parameters, no results
+// and no return statement are rewritten; anything else is left as written (the
+// lockset of the literal is still computed, see callbackLocks).
+func inlineLockClosures(w *World) (string, []string, string) {
+	type helper struct {
+		fi       *FuncInfo
+		fnIdx    int    // index of the func() parameter
+		lockIdx  int    // index of the lock parameter, or -1 when the lock is a field of the receiver
+		lockPath string // receiver-relative path ("instancesMu"), for lockIdx < 0
+		lockOp   string // Lock | RLock
+		unlockOp string
+	}
+	helpers := map[*types.Func]*helper{}
+	for _, fi := range w.AllFuncs() {
+		if fi.Decl.Body == nil || fi.Obj.Exported() {
+			continue
+		}
+		body := fi.Decl.Body.List
+		if len(body) != 3 {
+			continue
+		}
+		info := fi.Pkg.TypesInfo
+		// the func() parameter
+		fnIdx, k := -1, 0
+		var fnObj types.Object
+		var params []types.Object
+		for _, fl := range fi.Decl.Type.Params.List {
+			for _, nm := range fl.Names {
+				o := info.Defs[nm]
+				params = append(params, o)
+				if sig, ok := o.Type().Underlying().(*types.Signature); ok && sig.Params().Len() == 0 && sig.Results().Len() == 0 {
+					fnIdx, fnObj = k, o
+				}
+				k++
+			}
+		}
+		if fnIdx < 0 || (fi.Decl.Type.Results != nil && len(fi.Decl.Type.Results.List) > 0) {
+			continue
+		}
+		lockCall := func(st ast.Stmt, deferred bool) (recv ast.Expr, op string, ok bool) {
+			var c *ast.CallExpr
+			switch s := st.(type) {
+			case *ast.ExprStmt:
+				if deferred {
+					return nil, "", false
+				}
+				c, _ = s.X.(*ast.CallExpr)
+			case *ast.DeferStmt:
+				if !deferred {
+					return nil, "", false
+				}
+				c = s.Call
+			}
+			if c == nil || len(c.Args) != 0 {
+				return nil, "", false
+			}
+			sel, isSel := unparen(c.Fun).(*ast.SelectorExpr)
+			if !isSel {
+				return nil, "", false
+			}
+			switch sel.Sel.Name {
+			case "Lock", "RLock", "Unlock", "RUnlock":
+				return sel.X, sel.Sel.Name, true
+			}
+			return nil, "", false
+		}
+		callsFn := func(st ast.Stmt) bool {
+			es, ok := st.(*ast.ExprStmt)
+			if !ok {
+				return false
+			}
+			c, ok := es.X.(*ast.CallExpr)
+			return ok && len(c.Args) == 0 && objOf(info, c.Fun) == fnObj
+		}
+		l0, op0, ok0 := lockCall(body[0], false)
+		if !ok0 || (op0 != "Lock" && op0 != "RLock") {
+			continue
+		}
+		var unlockOp string
+		switch {
+		case callsFn(body[2]): // lock; defer unlock; fn()
+			l1, op1, ok1 := lockCall(body[1], true)
+			if !ok1 || exprStr(l1) != exprStr(l0) {
+				continue
+			}
+			unlockOp = op1
+		case callsFn(body[1]): // lock; fn(); unlock
+			l2, op2, ok2 := lockCall(body[2], false)
+			if !ok2 || exprStr(l2) != exprStr(l0) {
+				continue
+			}
+			unlockOp = op2
+		default:
+			continue
+		}
+		if (op0 == "Lock") != (unlockOp == "Unlock") {
+			continue
+		}
+		h := &helper{fi: fi, fnIdx: fnIdx, lockIdx: -1, lockOp: op0, unlockOp: unlockOp}
+		root := rootIdent(l0)
+		if root == nil {
+			continue
+		}
+		ro := info.ObjectOf(root)
+		found := false
+		for i, p := range params {
+			if p == ro && exprStr(l0) == root.Name {
+				h.lockIdx, found = i, true
+			}
+		}
+		if !found {
+			if fi.Decl.Recv == nil || len(fi.Decl.Recv.List[0].Names) != 1 || info.Defs[fi.Decl.Recv.List[0].Names[0]] != ro {
+				continue
+			}
+			h.lockPath = strings.TrimPrefix(exprStr(l0), root.Name+".")
+			if h.lockPath == exprStr(l0) {
+				continue
+			}
+		}
+		helpers[fi.Obj] = h
+	}
+	if len(helpers) == 0 {
+		return "", nil, ""
+	}
+	type edit struct {
+		start, end int
+		text       string
+	}
+	edits := map[string][]edit{}
+	off := func(p token.Pos) (string, int) {
+		ps := w.Fset.Position(p)
+		return ps.Filename, ps.Offset
+	}
+	srcOf := map[string][]byte{}
+	text := func(a, b token.Pos) string {
+		f, s := off(a)
+		_, e := off(b)
+		if srcOf[f] == nil {
+			srcOf[f], _ = os.ReadFile(f)
+		}
+		return string(srcOf[f][s:e])
+	}
+	names := map[string]bool{}
+	inlined := map[*types.Func]int{}
+	for _, fi := range w.AllFuncs() {
+		if fi.Decl.Body == nil {
+			continue
+		}
+		info := fi.Pkg.TypesInfo
+		ast.Inspect(fi.Decl.Body, func(x ast.Node) bool {
+			es, ok := x.(*ast.ExprStmt)
+			if !ok {
+				return true
+			}
+			c, ok := es.X.(*ast.CallExpr)
+			if !ok {
+				return true
+			}
+			cal := callee(info, c)
+			if cal == nil {
+				return true
+			}
+			if o := cal.Origin(); o != nil {
+				cal = o
+			}
+			h := helpers[cal]
+			if h == nil || h.fnIdx >= len(c.Args) {
+				return true
+			}
+			lit, ok := unparen(c.Args[h.fnIdx]).(*ast.FuncLit)
+			if !ok {
+				return true
+			}
+			hasRet := false
+			ast.Inspect(lit.Body, func(y ast.Node) bool {
+				switch y.(type) {
+				case *ast.FuncLit:
+					return y == ast.Node(lit)
+				case *ast.ReturnStmt:
+					hasRet = true
+				}
+				return true
+			})
+			if hasRet {
+				return true
+			}
+			lockExpr := ""
+			if h.lockIdx >= 0 {
+				if h.lockIdx >= len(c.Args) {
+					return true
+				}
+				a := unparen(c.Args[h.lockIdx])
+				if u, isU := a.(*ast.UnaryExpr); isU && u.Op == token.AND {
+					lockExpr = text(u.X.Pos(), u.X.End())
+				} else if _, isId := a.(*ast.Ident); isId {
+					lockExpr = text(a.Pos(), a.End())
+				} else {
+					return true
+				}
+			} else {
+				rcv, _, isM := methodCall(c)
+				if !isM {
+					return true
+				}
+				lockExpr = text(rcv.Pos(), rcv.End()) + "." + h.lockPath
+			}
+			inner := text(lit.Body.Lbrace+1, lit.Body.Rbrace)
+			repl := "{\n" + lockExpr + "." + h.lockOp + "()\n" + inner + "\n" + lockExpr + "." + h.unlockOp + "()\n}"
+			f, s := off(es.Pos())
+			_, e := off(es.End())
+			edits[f] = append(edits[f], edit{s, e, repl})
+			names[h.fi.Name()] = true
+			inlined[cal]++
+			return false
+		})
+	}
+	if len(edits) == 0 {
+		return "", nil, ""
+	}
+	// a helper all of whose uses were inlined is removed from the copy (what is left of it would
+	// be a call through a function value under a lock, with no caller to say what the value is)
+	uses := map[*types.Func]int{}
+	for _, p := range w.Pkgs {
+		for id, o := range p.TypesInfo.Uses {
+			_ = id
+			if f, ok := o.(*types.Func); ok {
+				if of := f.Origin(); of != nil {
+					f = of
+				}
+				if helpers[f] != nil {
+					uses[f]++
+				}
+			}
+		}
+	}
+	for f, h := range helpers {
+		if inlined[f] > 0 && uses[f] == inlined[f] {
+			ds := h.fi.Decl.Pos()
+			if h.fi.Decl.Doc != nil {
+				ds = h.fi.Decl.Doc.Pos()
+			}
+			df, dso := off(ds)
+			_, deo := off(h.fi.Decl.End())
+			edits[df] = append(edits[df], edit{dso, deo, ""})
+		}
+	}
+	var ns []string
+	for n := range names {
+		ns = append(ns, n)
+	}
+	sort.Strings(ns)
+	dir, err := os.MkdirTemp("", "godicheck-flat-")
+	if err != nil {
+		return "", ns, err.Error()
+	}
+	scratchDirs = append(scratchDirs, dir)
+	if out, err := exec.Command("cp", "-a", w.Root+"/.", dir).CombinedOutput(); err != nil {
+		return "", ns, "copy failed: " + string(out)
+	}
+	os.RemoveAll(filepath.Join(dir, ".git"))
+	for file, es := range edits {
+		b, err := os.ReadFile(file)
+		if err != nil {
+			return "", ns, err.Error()
+		}
+		sort.Slice(es, func(i, j int) bool { return es[i].start > es[j].start })
+		for i := 1; i < len(es); i++ {
+			if es[i].end > es[i-1].start {
+				return "", ns, "nested lock closures"
+			}
+		}
+		for _, e := range es {
+			b = append(append(append([]byte{}, b[:e.start]...), []byte(e.text)...), b[e.end:]...)
+		}
+		out, err := format.Source(b)
+		if err != nil {
+			return "", ns, "formatting " + file + ": " + err.Error()
+		}
+		if fixed, ierr := imports.Process(file, out, &imports.Options{Comments: true, TabIndent: true, TabWidth: 8}); ierr == nil {
+			out = fixed
+		}
+		rel, err := filepath.Rel(w.Root, file)
+		if err != nil {
+			return "", ns, err.Error()
+		}
+		if err := os.WriteFile(filepath.Join(dir, rel), out, 0o644); err != nil {
+			return "", ns, err.Error()
+		}
+	}
+	return dir, ns, ""
+}
+
+// flattenAnonStructFields: a field whose type is an anonymous struct
+// (`cache struct { mu sync.RWMutex; instances map[K]V }`) groups a lock with
+// what it guards without giving the group a type. In a scratch copy the inner
+// fields become fields of the owner (`cache_mu`, `cache_instances`) and every
+// `x.cache.instances` becomes `x.cache_instances`: same storage, same accesses.
+// Refused when the group is used as a value anywhere (assigned, passed, its
+// address taken, set in a composite literal).
+func flattenAnonStructFields(w *World) (string, []string, string) {
+	type group struct {
+		owner  *types.Named
+		field  *types.Var
+		astFld *ast.Field
+		st     *ast.StructType
+		file   *ast.File
+		pkg    *packages.Package
+	}
+	var groups []*group
+	byVar := map[*types.Var]*group{}
+	for _, p := range []*packages.Package{w.Godi, w.Graph, w.Refl} {
+		for _, f := range p.Syntax {
+			ast.Inspect(f, func(x ast.Node) bool {
+				ts, ok := x.(*ast.TypeSpec)
+				if !ok {
+					return true
+				}
+				st, ok := ts.Type.(*ast.StructType)
+				if !ok {
+					return true
+				}
+				named, _ := p.TypesInfo.Defs[ts.Name].Type().(*types.Named)
+				if named == nil {
+					return true
+				}
+				for _, fld := range st.Fields.List {
+					inner, ok := fld.Type.(*ast.StructType)
+					if !ok || len(fld.Names) != 1 {
+						continue
+					}
+					v, _ := p.TypesInfo.Defs[fld.Names[0]].(*types.Var)
+					if v == nil {
+						continue
+					}
+					g := &group{owner: named, field: v, astFld: fld, st: inner, file: f, pkg: p}
+					groups = append(groups, g)
+					byVar[v] = g
+				}
+				return false
+			})
+		}
+	}
+	if len(groups) == 0 {
+		return "", nil, ""
+	}
+	var names []string
+	for _, g := range groups {
+		names = append(names, g.owner.Obj().Name()+"."+g.field.Name())
+	}
+	sort.Strings(names)
+	type edit struct {
+		start, end int
+		text       string
+	}
+	edits := map[string][]edit{}
+	off := func(p token.Pos) (string, int) {
+		ps := w.Fset.Position(p)
+		return ps.Filename, ps.Offset
+	}
+	srcOf := map[string][]byte{}
+	text := func(a, b token.Pos) string {
+		f, s := off(a)
+		_, e := off(b)
+		if srcOf[f] == nil {
+			srcOf[f], _ = os.ReadFile(f)
+		}
+		return string(srcOf[f][s:e])
+	}
+	// uses
+	why := ""
+	for _, p := range w.Pkgs {
+		for _, f := range p.Syntax {
+			var stack []ast.Node
+			ast.Inspect(f, func(x ast.Node) bool {
+				if x == nil {
+					stack = stack[:len(stack)-1]
+					return true
+				}
+				stack = append(stack, x)
+				switch n := x.(type) {
+				case *ast.SelectorExpr:
+					fv := plainFieldOf(p.TypesInfo, n)
+					g := byVar[fv]
+					if g == nil {
+						return true
+					}
+					par, ok := stack[len(stack)-2].(*ast.SelectorExpr)
+					if !ok || par.X != ast.Expr(n) {
+						why = "the group " + g.owner.Obj().Name() + "." + g.field.Name() + " is used as a value at " + w.Pos(n.Pos())
+						return true
+					}
+					fl, s := off(n.Sel.Pos())
+					_, e := off(par.Sel.End())
+					edits[fl] = append(edits[fl], edit{s, e, n.Sel.Name + "_" + par.Sel.Name})
+				case *ast.KeyValueExpr:
+					if id, ok := n.Key.(*ast.Ident); ok {
+						if v, isV := p.TypesInfo.Uses[id].(*types.Var); isV && byVar[v] != nil {
+							why = "the group " + id.Name + " is set in a composite literal at " + w.Pos(n.Pos())
+						}
+					}
+				}
+				return true
+			})
+		}
+	}
+	if why != "" {
+		return "", names, why
+	}
+	// declarations
+	for _, g := range groups {
+		existing := map[string]bool{}
+		if st, ok := g.owner.Underlying().(*types.Struct); ok {
+			for i := 0; i < st.NumFields(); i++ {
+				existing[st.Field(i).Name()] = true
+			}
+		}
+		var lines []string
+		for _, in := range g.st.Fields.List {
+			if len(in.Names) == 0 {
+				return "", names, "an embedded field inside the group " + g.field.Name()
+			}
+			for _, nm := range in.Names {
+				nn := g.field.Name() + "_" + nm.Name
+				if existing[nn] {
+					return "", names, "name clash for " + nn
+				}
+				tag := ""
+				if in.Tag != nil {
+					tag = " " + in.Tag.Value
+				}
+				lines = append(lines, nn+" "+text(in.Type.Pos(), in.Type.End())+tag)
+			}
+		}
+		fl, s := off(g.astFld.Pos())
+		_, e := off(g.astFld.End())
+		edits[fl] = append(edits[fl], edit{s, e, strings.Join(lines, "\n")})
+	}
+	dir, err := os.MkdirTemp("", "godicheck-flat-")
+	if err != nil {
+		return "", names, err.Error()
+	}
+	scratchDirs = append(scratchDirs, dir)
+	if out, err := exec.Command("cp", "-a", w.Root+"/.", dir).CombinedOutput(); err != nil {
+		return "", names, "copy failed: " + string(out)
+	}
+	os.RemoveAll(filepath.Join(dir, ".git"))
+	for file, es := range edits {
+		b, err := os.ReadFile(file)
+		if err != nil {
+			return "", names, err.Error()
+		}
+		sort.Slice(es, func(i, j int) bool { return es[i].start > es[j].start })
+		for _, e := range es {
+			b = append(append(append([]byte{}, b[:e.start]...), []byte(e.text)...), b[e.end:]...)
+		}
+		out, err := format.Source(b)
+		if err != nil {
+			return "", names, "formatting " + file + ": " + err.Error()
+		}
+		rel, err := filepath.Rel(w.Root, file)
+		if err != nil {
+			return "", names, err.Error()
+		}
+		if err := os.WriteFile(filepath.Join(dir, rel), out, 0o644); err != nil {
+			return "", names, err.Error()
+		}
+	}
+	return dir, names, ""
 }
